@@ -242,6 +242,7 @@ class Program:
         trees = {rel: parse_module(src, rel) for mod, rel, src in pending}
         # syntactic sugar first (applies to every tree): walrus, conditional expressions, all/any
         normalise.desugar_walrus(trees)
+        normalise.split_chained_assignments(trees)
         normalise.desugar_conditional_expressions(trees)
         normalise.desugar_quantifiers(trees)
         normalise.desugar_boolean_returns(trees)
